@@ -84,6 +84,10 @@ impl Poll {
             r is Err ==> final(s).registered == old(s).registered && final(s).open == old(s).open,
     { unimplemented!() }
 
+    // the same registration written out through mio's own types (`let registry = self.poll.registry(); registry.register(..)`)
+    #[verifier::external_body]
+    pub fn registry(&self) -> (r: Registry) { unimplemented!() }
+
     // self.poll.registry().deregister(&mut SourceFd(&fd))
     #[verifier::external_body]
     pub fn deregister_fd(&self, fd: RawFd, Tracked(s): Tracked<&mut S>) -> (r: Result<(), IoError>)
@@ -195,3 +199,23 @@ pub fn k_close_member(fd: c_int, Tracked(s): Tracked<&mut S>) -> (r: c_int)
         final(s).drained == old(s).drained, final(s).polled_nonempty == old(s).polled_nonempty, final(s).taken == old(s).taken
 { unimplemented!() }
 pub mod thread { use super::*; #[verifier::external_body] pub fn panicking() -> bool { unimplemented!() } }
+
+// mio's Registry / SourceFd / Interest, for code that names them instead of the one-expression form (rule B20)
+pub struct Registry { pub _p: () }
+pub struct SourceFd<'a>(pub &'a RawFd);
+pub struct Interest { pub _p: () }
+impl Interest { pub const READABLE: Interest = Interest { _p: () }; }
+impl Registry {
+    #[verifier::external_body]
+    pub fn register(&self, source: &mut SourceFd, token: Token, interest: Interest, Tracked(s): Tracked<&mut S>) -> (r: Result<(), IoError>)
+        ensures
+            final(s).rx == old(s).rx, final(s).drained == old(s).drained, final(s).polled_nonempty == old(s).polled_nonempty, final(s).taken == old(s).taken,
+            r is Ok ==> final(s).registered == old(s).registered.insert(token, *old(source).0) && final(s).open == old(s).open.insert(*old(source).0),
+            r is Err ==> final(s).registered == old(s).registered && final(s).open == old(s).open,
+    { unimplemented!() }
+}
+// From<io::Error> for UnixError (the conversion `?` applies to mio's errors)
+impl From<IoError> for UnixError {
+    #[verifier::external_body]
+    fn from(e: IoError) -> (r: UnixError) { unimplemented!() }
+}
